@@ -305,5 +305,10 @@ func (c *Ctx) finish(start time.Time, seed int, fatal error) int {
 	for _, r := range rs {
 		fmt.Printf("  rule %-40s %d instance(s)\n", r, counts[r])
 	}
+	if os.Getenv("NEPCHECK_VERBOSE") != "" {
+		for _, o := range c.Obls {
+			fmt.Printf("    %-9s %s @ %s %s\n", o.Status, o.Rule, o.Construct, o.Pos)
+		}
+	}
 	return exit
 }
